@@ -131,7 +131,11 @@ class LessParser(object):
             filename (str): File to parse
             debuglevel (int): Parser debuglevel
         """
-        self.scope.push()
+        if not self.importlvl:
+            # An imported file defines into the level its @import statement
+            # stands in; a level of its own would be left on the stack and
+            # be popped in place of the importing block's.
+            self.scope.push()
 
         if not file:
             # We use a path.
